@@ -12,7 +12,7 @@
 From Coq Require Import List ZArith Bool.
 From SVC Require Import Base.AMap Base.Res Base.Dec Model.Types Model.Pricing
   Model.Handlers Model.EndBlock Model.Step Proofs.Inv Proofs.CtxOps Proofs.StepSpecs_batch
-  Proofs.StepSpecs_batch_block.
+  Proofs.StepSpecs_batch_block Proofs.ThrProofs.
 Import ListNotations.
 Open Scope Z_scope.
 
@@ -155,3 +155,19 @@ Theorem C06_end_block_handler : forall cfg s dt c,
     /\ get c (ctxs sf) = get c (ctxs (new_one cfg s1 c)).
 Proof. exact StepSpecs_batch_block.C06_end_block_handler. Qed.
 Print Assumptions C06_end_block_handler.
+
+(* the threshold that decides between issuing and skipping is the CURRENT response threshold of the stored
+   record (c_thr, which the owning module may have changed since the previous batch through
+   keeper.UpdateRequestContext), not the copy kept for the previous batch (c_bthr); whenever a batch is
+   started -- issued or skipped -- that threshold becomes the new batch's own *)
+Theorem C06_batch_threshold : forall cfg s c,
+  wf_cfg cfg -> Inv cfg s -> In (height s, c) (newq s) -> height s < HEIGHT_BOUND ->
+  exists rc, get c (ctxs s) = Some rc /\
+    let E := filter_providers s rc (c_provs rc) in
+    forall rc', get c (ctxs (new_one cfg s c)) = Some rc' -> c_counter rc' <> c_counter rc ->
+      c_counter rc' = c_counter rc + 1 /\ c_thr rc' = c_thr rc /\ c_bthr rc' = c_thr rc
+      /\ c_bresp rc' = 0 /\ c_bdone rc' = false
+      /\ (   ((len E = 0 \/ len E < c_thr rc) /\ c_breq rc' = 0)
+          \/ (0 < len E /\ c_thr rc <= len E /\ c_breq rc' = len E)).
+Proof. exact ThrProofs.C06_batch_threshold. Qed.
+Print Assumptions C06_batch_threshold.
